@@ -20,7 +20,8 @@ def budget(ctx: Ctx, quick: int, thorough: int) -> int:
 
 
 def adapters_for(pid: str) -> List[Adapter]:
-    return [a for a in load_adapters().values() if pid in a.serves]
+    # C01 (spec conformance) and C03 (protocol) apply to every environment
+    return [a for a in load_adapters().values() if pid in a.serves or pid in ("C01", "C03")]
 
 
 def _req(ad: Adapter, op: str, cfg: Config, **kw: Any) -> Dict[str, Any]:
@@ -531,3 +532,79 @@ def _c17(ctx, ad, cfg, env, runner, rng, drv, mult):
         cases = [(r, r["action"], r["next"], r["ts"]) for r in rollouts(ad, env, runner, rng, budget(ctx, 3, 12) * mult) if not r["reset"]]
         _judge(ctx, ad, cfg, env, cases, drv, ["conserved", "move_ok", "slide_ok", "rules_ok", "solved_ok"], "puzzle")
     _c10(ctx, ad, cfg, env, runner, rng, drv, mult)
+
+
+
+# --------------------------------------------------------------------------------------
+# C03 / C01 on the adapters' configurations and policies
+# --------------------------------------------------------------------------------------
+
+def _ts_json(ts):
+    return {"step_type": int(ts.step_type), "reward": ser_rats(ts.reward), "discount": ser_rats(ts.discount), "obs": None}
+
+
+def _c03(ctx, ad, cfg, env, runner, rng, drv, mult):
+    sh = tuple(env.reward_spec.shape)
+    shape = None if sh == () else int(sh[0])
+    trunc_ok = type(env).__name__ == "LevelBasedForaging"
+    reqs, infos = [], []
+    for r in rollouts(ad, env, runner, rng, budget(ctx, 4, 12) * mult, post_terminal=3):
+        ts = r["ts"]
+        if r["reset"]:
+            reqs.append({"op": "core.resetOK", "shape": shape, "ts": _ts_json(ts)})
+        else:
+            reqs.append({"op": "core.stepOK", "shape": shape, "trunc_ok": trunc_ok, "ts": _ts_json(ts)})
+        infos.append({"env": cfg.cid, "reset_seed": r.get("seed"), "t": r.get("t", -1), "policy": r.get("policy"),
+                      "after_last": bool(r.get("post_terminal")), "ts": _ts_json(ts)})
+    for q, info, ok in zip(reqs, infos, drv.batch(reqs)):
+        ctx.evaluations += 1
+        ctx.nontrivial.add((cfg.cid, info["reset_seed"], info["t"]))
+        if isinstance(ok, DriverError):
+            ctx.disagree(ad.name, f"predicate rejects an implementation timestep: {ok}", info)
+        elif ok is not True:
+            kind = "reset_protocol" if q["op"] == "core.resetOK" else ("step_protocol_after_last" if info.get("after_last") else "step_protocol")
+            ctx.fail(ad.name, kind, f"timestep violates the protocol: step_type={info['ts']['step_type']} "
+                     f"discount={[x[0] / x[1] for x in info['ts']['discount']]}", info)
+
+
+def _c01(ctx, ad, cfg, env, runner, rng, drv, mult):
+    import jax
+
+    import speclib
+    from props.c01 import bad_leaf
+
+    cls = type(env).__name__
+    ospec, rspec, dspec = env.observation_spec, env.reward_spec, env.discount_spec
+    sh_state, sh_ts = jax.eval_shape(env.reset, jax.random.PRNGKey(0))
+    _, sh_ts2 = jax.eval_shape(env.step, sh_state, env.action_spec.generate_value())
+    for phase, sts in (("reset", sh_ts), ("step", sh_ts2)):
+        ctx.evaluations += 1
+        for nm, sp, v in (("reward", rspec, sts.reward), ("discount", dspec, sts.discount)):
+            if tuple(v.shape) != tuple(sp.shape) or np.dtype(v.dtype) != np.dtype(sp.dtype):
+                ctx.fail(ad.name, "shape_dtype", f"{cfg.cid} {phase}: {nm} has shape/dtype {tuple(v.shape)}/{v.dtype}, spec says {tuple(sp.shape)}/{sp.dtype}",
+                         {"env": cfg.cid, "cls": cls, "phase": phase, "field": nm}, {"cls": cls, "field": nm, "phase": phase})
+        try:
+            fo, fs = dict(speclib.flatten_value(ospec, sts.observation)), dict(speclib.flatten_spec(ospec))
+            for k, sp in fs.items():
+                if k not in fo or tuple(fo[k].shape) != tuple(sp.shape) or np.dtype(fo[k].dtype) != np.dtype(sp.dtype):
+                    ctx.fail(ad.name, "shape_dtype", f"{cfg.cid} {phase}: observation field {k} shape/dtype differs from the spec",
+                             {"env": cfg.cid, "cls": cls, "phase": phase, "field": k}, {"cls": cls, "field": k, "phase": phase})
+        except TypeError as ex:
+            ctx.fail(ad.name, "structure", f"{cfg.cid} {phase}: observation structure does not match the spec: {ex}", {"env": cfg.cid, "phase": phase}, {"cls": cls})
+    for r in rollouts(ad, env, runner, rng, budget(ctx, 3, 10) * mult):
+        if r.get("post_terminal"):
+            continue
+        ts = r["ts"]
+        phase = "reset" if r["reset"] else "step"
+        ctx.evaluations += 1
+        ctx.nontrivial.add((cfg.cid, r.get("seed"), r.get("t", -1)))
+        meta = {"env": cfg.cid, "cls": cls, "reset_seed": r.get("seed"), "t": r.get("t", -1), "phase": phase, "policy": r.get("policy")}
+        b = bad_leaf(ospec, ts.observation)
+        if b is not None:
+            ctx.fail(ad.name, "obs_out_of_spec", f"{cfg.cid}: {phase} observation field {b[0]!r} rejected by observation_spec: {b[1]}", meta,
+                     {"cls": cls, "field": b[0].split(".")[-1], "value": b[2], "phase": phase})
+        for nm, sp, v in (("reward", rspec, ts.reward), ("discount", dspec, ts.discount)):
+            try:
+                sp.validate(v)
+            except (ValueError, TypeError) as ex:
+                ctx.fail(ad.name, f"{nm}_out_of_spec", f"{cfg.cid}: {phase} {nm} rejected by {nm}_spec: {str(ex)[:160]}", meta, {"cls": cls, "phase": phase})
